@@ -97,6 +97,7 @@ fn main() {
         "child" => {
             let rest: Vec<String> = args[3..].to_vec();
             let code = match args[2].as_str() {
+                "c01mse" => c01::child_mse(&rest),
                 "c06par" => c06::child_par(&rest),
                 "c12" => c12::child(&rest),
                 "c14mle" => c14::child_mle(&rest),
